@@ -367,6 +367,8 @@ REG.bounded_check("bounded#every_emitted_url_is_served_and_unknown_paths_are_404
 
 ASSUMES = ["A-PY", "A-INST", "A-DJ"]
 NOT_COVERED = [
+    "A-HASH (assumed, and FALSE for class factories - known finding F-C19a): distinct live component classes have distinct class hashes; the clause 'already published under the key' in the postcondition of cache_component_js / css is the component's OWN script only under this assumption",
+    "every class hash that occurs in a dependency marker of the processed HTML is alive in comp_hash_mapping (a WeakValueDictionary): precondition of _prepare_tags_and_urls, not derived (HTML produced by another process, or by a class that has been garbage-collected since, raises KeyError)",
     "evictions between the render and the later GET (BaseCache is a map without spontaneous eviction here)",
     "django.urls.reverse / URL resolver round trip (get_script_url's contract is assumed)",
     "the ordering cache-before-emit inside Component._render_impl is argued (DESIGN), not machine-checked",
